@@ -25,10 +25,31 @@ from vlib import sqfsimg as S
 HERE = os.path.dirname(os.path.abspath(__file__))
 sys.path.insert(0, HERE)
 import dotleg  # noqa: E402  (readers created with SQFS_DIR_READER_DOT_ENTRIES: props/C10/dotleg.py)
+import sizeleg  # noqa: E402  (images with valid streams that expand to another size than expected: props/C10/sizeleg.py)
 LEVEL = "proof"
 ENV = dict(os.environ, ASAN_OPTIONS="detect_leaks=0:allocator_may_return_null=1:max_allocation_size_mb=3000",
            UBSAN_OPTIONS="print_stacktrace=1")
 U64 = (1 << 64) - 1
+
+
+def _asan_env(extra):
+    return dict(ENV, ASAN_OPTIONS=ENV["ASAN_OPTIONS"] + ":" + extra)
+
+
+# Allocator regimes.  An answer of the library that contains bytes the library never wrote is invisible when the
+# long-lived and the fresh run share one regime: ASan's quarantine never hands a freed block buffer to the next
+# malloc and fills new memory with the same 0xbe in both runs.  The long-lived readers therefore run twice:
+#   default : quarantine, new memory filled with 0xbe (first 4096 bytes)
+#   reuse   : no quarantine, no fill -- a freed buffer is handed to the next malloc of that size, with its old
+#             contents (what a production allocator does)
+# and the fresh readers run with every malloc zero-filled (what a reader created in a new process gets from
+# the operating system).  All three are legitimate executions of the same queries on the same image: any
+# difference in an answer is a C10 violation with a concrete input.  Out-of-bounds detection is on in all three.
+REGIMES = {
+    "default": ENV,
+    "reuse": _asan_env("quarantine_size_mb=0:thread_local_quarantine_size_kb=0:max_malloc_fill_size=0"),
+}
+ENV_FRESH = _asan_env("malloc_fill_byte=0:max_malloc_fill_size=1073741824")
 
 
 # --------------------------------------------------------------------------
@@ -474,10 +495,10 @@ def corpus_ops(kind, f):
 # running
 # --------------------------------------------------------------------------
 
-def run_prog(cmd, ops, timeout=120):
+def run_prog(cmd, ops, timeout=120, env=None):
     data = ("\n".join(ops) + "\n").encode()
     try:
-        r = subprocess.run(cmd, input=data, stdout=subprocess.PIPE, stderr=subprocess.PIPE, env=ENV, timeout=timeout)
+        r = subprocess.run(cmd, input=data, stdout=subprocess.PIPE, stderr=subprocess.PIPE, env=env or ENV, timeout=timeout)
         return r.returncode, r.stdout.decode("latin-1").split("\n"), r.stderr.decode("latin-1")[-3000:]
     except subprocess.TimeoutExpired as e:
         return 124, (e.stdout or b"").decode("latin-1").split("\n"), "timeout"
@@ -512,13 +533,16 @@ class Case:
 
 
 def evaluate(ctx, h, drv, case, stats):
-    """returns list of (kind, index, detail) problems"""
+    """returns list of (kind, index, detail, regime) problems"""
     rc_l, out_l, err_l = run_prog([h, case.path, "long"], case.ops)
-    rc_f, out_f, err_f = run_prog([h, case.path, "fresh"], case.ops)
+    rc_f, out_f, err_f = run_prog([h, case.path, "fresh"], case.ops, env=ENV_FRESH)
+    rc_r, out_r, err_r = run_prog([h, case.path, "long"], case.ops, env=REGIMES["reuse"])
     probs = []
-    if rc_l != 0 or rc_f != 0:
-        k = len([l for l in (out_l if rc_l else out_f) if l])
-        probs.append(("crash", min(k, len(case.ops) - 1), "harness died: long rc=%d fresh rc=%d\n%s" % (rc_l, rc_f, (err_l if rc_l else err_f)[-1500:])))
+    if rc_l != 0 or rc_f != 0 or rc_r != 0:
+        bad_out, bad_err, reg = (out_l, err_l, "default") if rc_l else ((out_f, err_f, "default") if rc_f else (out_r, err_r, "reuse"))
+        k = len([l for l in bad_out if l])
+        probs.append(("crash", min(k, len(case.ops) - 1), "harness died: long rc=%d fresh rc=%d long(reuse regime) rc=%d\n%s"
+                      % (rc_l, rc_f, rc_r, bad_err[-1500:]), reg))
         return probs
     out_m = None
     if drv and not any("openfail" in l for l in out_l[:3]):
@@ -527,30 +551,37 @@ def evaluate(ctx, h, drv, case, stats):
             stats["model_timeouts"] = stats.get("model_timeouts", 0) + 1
             out_m = None
         elif rc_m != 0:
-            probs.append(("model-crash", len(case.ops) - 1, "model driver died rc=%d: %s" % (rc_m, err_m[-800:])))
+            probs.append(("model-crash", len(case.ops) - 1, "model driver died rc=%d: %s" % (rc_m, err_m[-800:]), "default"))
             out_m = None
     for i, op in enumerate(case.ops):
         a = strip(out_l[i]) if i < len(out_l) else "<missing>"
         b = strip(out_f[i]) if i < len(out_f) else "<missing>"
+        r = strip(out_r[i]) if i < len(out_r) else "<missing>"
         stats["ops"] += 1
         if b != "-":
-            stats["cmp_fresh"] += 1
+            stats["cmp_fresh"] += 2
+            if r != b:
+                probs.append(("history", i, "op %r: long-lived (allocator hands freed buffers to the next malloc)=%r fresh=%r" % (op, r, b), "reuse"))
             if a != b:
-                probs.append(("history", i, "op %r: long-lived=%r fresh=%r" % (op, a, b)))
+                probs.append(("history", i, "op %r: long-lived=%r fresh=%r" % (op, a, b), "default"))
             elif ("=0" in a or a.startswith("0")):
                 stats["ok_answers"] += 1
+        elif r != a:
+            # no stateless meaning (raw cursor op): still the same op list on the same image in two allocator regimes
+            stats["cmp_fresh"] += 1
+            probs.append(("history", i, "op %r: long-lived=%r, the same history with another allocator regime=%r" % (op, a, r), "regimes"))
         if "DISAGREE" in a or "DISAGREE" in b:
-            probs.append(("api-disagree", i, "op %r: %s" % (op, a)))
+            probs.append(("api-disagree", i, "op %r: %s" % (op, a), "default"))
         if out_m is not None:
             m = strip(out_m[i]) if i < len(out_m) else "<missing>"
             if m != "?":
                 stats["cmp_model"] += 1
                 if not model_agrees(a, m):
-                    probs.append(("tie", i, "op %r: impl(long-lived)=%r model=%r" % (op, a, m)))
+                    probs.append(("tie", i, "op %r: impl(long-lived)=%r model=%r" % (op, a, m), "default"))
     return probs
 
 
-def shrink(ctx, h, case, kind, idx):
+def shrink(ctx, h, case, kind, idx, regime="default"):
     """delta-debug the history before op idx (keeps the failing op last); search-oracle only"""
     ops = case.ops[:idx + 1]
     target = ops[-1]
@@ -559,8 +590,11 @@ def shrink(ctx, h, case, kind, idx):
 
     def fails(hs):
         c = header + hs + [target]
-        rc_l, out_l, _ = run_prog([h, case.path, "long"], c)
-        rc_f, out_f, _ = run_prog([h, case.path, "fresh"], c)
+        rc_l, out_l, _ = run_prog([h, case.path, "long"], c, env=REGIMES["reuse" if regime in ("reuse", "regimes") else "default"])
+        if regime == "regimes":
+            rc_f, out_f, _ = run_prog([h, case.path, "long"], c)
+        else:
+            rc_f, out_f, _ = run_prog([h, case.path, "fresh"], c, env=ENV_FRESH)
         if rc_l or rc_f:
             return kind == "crash"
         if len(out_l) < len(c) or len(out_f) < len(c):
@@ -636,7 +670,9 @@ def run(ctx):
     ctx.trusted += ["props/C10/h_reader.c (op executor, long-lived and fresh mode), props/C10/driver.ml + stubs.c (I/O glue; "
                     "decompressor oracle bound to system zlib/liblzma/liblz4/libzstd with the calling conventions of lib/sqfs/src/comp/*.c)",
                     "vlib/sqfsimg.py (image facts used to aim the ops; Builder for crafted images)",
-                    "ASan/UBSan verdict on the harness runs",
+                    "ASan/UBSan verdict on the harness runs; ASan's allocator options (quarantine_size_mb, max_malloc_fill_size, "
+                    "malloc_fill_byte) as the means to make uninitialised / recycled heap contents visible (check.py:REGIMES)",
+                    "props/C10/sizeleg.py (hand-made valid streams of another size than expected: Python zlib/lzma, system liblz4/libzstd via ctypes)",
                     "props/C10/gen_c10.c: translator meta_reader.c/block.h -> coq/C10/GenC10.v (regenerated on every run)"]
     ctx.assumptions += ["the block decompressor is a function of its input (Section variable `uncompress`, no contract needed); "
                         "re-observed by the long-lived vs fresh comparison on compressed images",
@@ -718,6 +754,26 @@ def run(ctx):
                 open(pd, "wb").write(dd)
                 cases.append(Case("%s-dmg%d" % (nm, k), pd, gen_ops(rnd, f, 80 if quick else (150 if bs <= 16384 else 50)), "damaged"))
 
+        # --- valid streams that expand to another size than the inode / fragment entry / reader expects ---
+        size_combos = [("gzip", 4096), ("xz", 4096), ("lz4", 8192), ("zstd", 4096)]
+        if not quick:
+            size_combos += [("gzip", 16384), ("xz", 8192), ("lz4", 4096), ("zstd", 65536), ("gzip", 8192), ("zstd", 8192)]
+        for ci, (comp, bs) in enumerate(size_combos):
+            for v in range(1 if quick else 3):
+                nm = "size%d_%s_%d" % (ci, comp, v)
+                try:
+                    data, sinfo = sizeleg.build_image(rnd, comp, bs)
+                except Exception as e:
+                    ctx.violation("machinery:size-leg", "cannot build the mis-sized-stream image (%s, %d): %r" % (comp, bs, e),
+                                  dict(kind="machinery", detail=repr(e)), no_input=True)
+                    continue
+                p = os.path.join(ctx.scratch, nm + ".sqfs")
+                open(p, "wb").write(data)
+                f = image_facts(data)
+                for k in range(3 if quick else 8):
+                    cases.append(Case("%s-a%d" % (nm, k), p, sizeleg.aimed_ops(rnd, sinfo, 90 if quick else 200), "sizemis"))
+                cases.append(Case("%s-h" % nm, p, gen_ops(rnd, f, 100 if quick else 200), "sizemis"))
+
     ctx.log("%d cases" % len(cases))
     dist = {}
     reported = set()
@@ -737,7 +793,7 @@ def run(ctx):
             agree_files += sum(1 for l in out if " AGREE" in l)
             for i, l in enumerate(out):
                 if l and " AGREE" not in l and " skip" not in l:
-                    probs.append(("api-disagree", i, "library-written image, file ref %s: %s" % (case.ops[i], strip(l))))
+                    probs.append(("api-disagree", i, "library-written image, file ref %s: %s" % (case.ops[i], strip(l)), "default"))
         if len(samples) < 4 and not probs and case.kind in ("real", "crafted", "damaged", "corpus") and len(samples) == len(set(x["kind"] for x in samples)) \
                 and case.kind not in set(x["kind"] for x in samples):
             want = {"corpus": ("I",), "crafted": ("DL", "MQ"), "damaged": ("I", "DL"), "real": ("X", "F", "T")}[case.kind]
@@ -748,24 +804,32 @@ def run(ctx):
                                 fresh=strip(o2[k]) if k < len(o2) else ""))
         # concrete property failures first
         hist = [p for p in probs if p[0] in ("history", "crash", "api-disagree")]
+        # a witness that shows the contents of an earlier answer (allocator reuse) before one that shows a fill pattern
+        hist.sort(key=lambda p: 0 if (p[0] == "history" and p[3] == "reuse") else 1)
         ties = [p for p in probs if p[0] in ("tie", "model-crash")]
-        for kind, idx, detail in hist[:1]:
+        for kind, idx, detail, regime in hist[:1]:
             if kind == "api-disagree":
                 sig = "api-agree:" + case.kind
                 ops = [o for o in case.ops[:idx] if o.startswith("M ")] + [case.ops[idx]]
             else:
-                ops = shrink(ctx, h, case, kind, idx)
+                ops = shrink(ctx, h, case, kind, idx, regime)
                 sig = ("history:" if kind == "history" else "crash:") + classify(ops)
+                if kind == "history" and not [o for o in ops if not o.startswith("M ")][:-1]:
+                    sig = "uninit:" + classify(ops)
+                    detail += " [no earlier op needed: the answer contains memory the library never wrote -- it differs between " \
+                              "two sets of freshly created readers whose new heap memory holds different bytes]"
             if sig in reported:
                 continue
             reported.add(sig)
             img = open(case.path, "rb").read()
             ctx.violation(sig, "C10 violated on the implementation (%s image %s): %s; minimal history: %s"
                           % (case.kind, case.name, detail, " ; ".join(o for o in ops if not o.startswith("M "))),
-                          dict(image_zhex=zlib.compress(img, 9).hex(), ops=ops, kind=case.kind, detail=detail,
-                               how="h_reader <image> long  vs  h_reader <image> fresh  on these ops"))
+                          dict(image_zhex=zlib.compress(img, 9).hex(), ops=ops, kind=case.kind, detail=detail, regime=regime,
+                               how="h_reader <image> long  vs  h_reader <image> fresh  on these ops; ASAN_OPTIONS of the long-lived run: "
+                                   + REGIMES["reuse" if regime in ("reuse", "regimes") else "default"]["ASAN_OPTIONS"]
+                                   + " ; of the fresh run: " + (ENV if regime == "regimes" else ENV_FRESH)["ASAN_OPTIONS"]))
         if ties and not hist:
-            kind, idx, detail = ties[0]
+            kind, idx, detail = ties[0][:3]
             sig = "tie:" + classify(case.ops[:idx + 1])
             if sig not in reported:
                 reported.add(sig)
@@ -810,7 +874,10 @@ def run(ctx):
                             "64-300 directories whose inode numbers are >= 2^31 apart / around 2^31 and 2^32-1 / exact 2^31 pairs / random "
                             "32 bit / 1..n, fetched in ascending, descending, alternating, zigzag, BFS and random order, then listings with "
                             "./.., resolve_inum, resolve_path with . and .. components, sqfs_copy; long-lived reader vs a new reader that "
-                            "re-fetches the same set in another order vs the extracted DotModel; comparator pairs vs key_compare"
+                            "re-fetches the same set in another order vs the extracted DotModel; comparator pairs vs key_compare.  "
+                            "Allocator regimes: every case runs long-lived under ASan with quarantine + 0xbe fill AND with immediate reuse of "
+                            "freed blocks without fill, fresh with zero-filled new memory; size leg: Builder images with valid gzip/xz/lz4/zstd "
+                            "streams that expand short / long as data, fragment and metadata blocks, each queried after a different full block"
                             % (ctx.seed, "" if ctx.tier == "quick" else "/lzma"))
     ctx.add_samples(samples)
 
